@@ -267,8 +267,20 @@ ssize_t io::stream::push(size_t len, const void *src)
 	if (_idlen && !(_srm->flags() & ::mpt::stream::MesgActive)) {
 		uint8_t id[__UINT8_MAX__];
 		mpt_message_id2buf(_cid, id, _idlen);
-		if (mpt_stream_push(_srm, _idlen, id) < _idlen) {
-			push(1, 0);
+		ssize_t ret = mpt_stream_push(_srm, _idlen, id);
+		if (ret < _idlen) {
+			// message must not start without complete id
+			if (ret >= 0) {
+				mpt_stream_push(_srm, 1, 0);
+				ret = MissingBuffer;
+			}
+			command *c;
+			if (_cid && (c = _wait.get(_cid))) {
+				c->cmd(c->arg, 0);
+				c->cmd = 0;
+			}
+			_cid = 0;
+			return ret;
 		}
 	}
 	if ((curr = mpt_stream_push(_srm, len, src)) < 0) {
